@@ -359,6 +359,7 @@ class Interp(object):
         for st in ci.node.body:
             if isinstance(st, (ast.FunctionDef, ast.AsyncFunctionDef)):
                 cv.attrs[st.name] = FuncV(st, cenv.parent, ci.mod, clsv=cv)
+                cenv.vars[st.name] = cv.attrs[st.name]     # visible to later class-body statements
             elif isinstance(st, ast.Expr) and isinstance(st.value, ast.Constant):
                 continue
             else:
